@@ -143,13 +143,13 @@ Definition cl_locked (c : N) (sp : spec) (o : op) (r : res) : bool :=
   | _ => true
   end.
 
-(* clause 4: a trap command is refused as "ignored" only for an ignored signal
-   in a non-interactive shell *)
+(* clause 4: a trap command is refused as "ignored" only for a signal ignored
+   on entry to the shell, in a non-interactive shell *)
 Definition cl_refusal (c : N) (sp : spec) (o : op) (r : res) : bool :=
   match o with
   | OSetAction c' _ _ ovr =>
       if N.eqb c c' && res_eqb r RErrIgnored
-      then negb ovr && action_eqb (u_act sp) AIgnore
+      then negb ovr && u_locked sp
       else true
   | _ => true
   end.
@@ -356,6 +356,7 @@ Definition Refines (init : disp) (st : sigst) (sp : spec) : Prop :=
           t_pending (e_cur e) = false)
       /\ (u_locked sp = true ->
           t_action (e_cur e) = AIgnore /\ t_origin (e_cur e) = Inherited)
+      /\ (t_action (e_cur e) = AIgnore -> t_origin (e_cur e) = Inherited -> u_locked sp = true)
   end.
 
 (* ---- notions used in the statements of Properties.v -------------------------------- *)
